@@ -7,6 +7,7 @@
            abstracted to identifiers) must emit the same events, consume exactly the recorded
            calls, and flush as often as recorded. *)
 From Coq Require Import List ZArith NArith Bool Arith.
+From RxVerif Require Import Compress.Inflate.
 From RxVerif Require Import Base.Corr Compress.Wrapper.
 Import ListNotations.
 
@@ -17,7 +18,16 @@ Inductive c16case :=
 | CTraceC (nchunks : nat) (calls : list (option N)) (flush : option N) (nflush : nat)
           (obs : list (list (event N)))
 | CTraceD (skip : bool) (empties : list bool) (calls : list (option N)) (eof : bool)
-          (flush : option N) (nflush : nat) (obs : list (list (event N))).
+          (flush : option N) (nflush : nat) (obs : list (list (event N)))
+(* the model of gzip decompression (Compress/Inflate.v) against the real zlib:
+   CGunzip: stream = what the REAL z.compress wrapper emitted for payload (any deflate block types); gunzip must
+            return the payload with nothing left over, every strict prefix cut at `cuts` must be NeedMore, and the
+            stored-block encoder of the model must round-trip the payload;
+   mutants: arbitrary (bit-flipped / cut / extended) streams, each with zlib's verdict on it: 0 = complete
+            with this payload and no unused data, 1 = valid so far but incomplete, 2 = zlib.error.  Compared one
+            way only where zlib's own choice between "error" and "incomplete" is an implementation matter:
+            complete <-> Done with the same payload; otherwise the model must not say Done. *)
+| CGunzip (stream payload : list Z) (cuts : list nat) (mutants : list (list Z * N * list Z)).
 
 Definition ns_eqb := list_eqb N.eqb.
 Definition ev_eqb {O} (eqb : O -> O -> bool) (a b : event O) : bool :=
@@ -32,6 +42,14 @@ Definition evss_eqb {O} (eqb : O -> O -> bool) := list_eqb (list_eqb (ev_eqb eqb
 (* all recorded calls were made: nothing is left, or only the call that raised *)
 Definition consumed (tr : list (option N)) : bool :=
   match tr with [] => true | [None] => true | _ => false end.
+
+Definition gunzip_verdict_ok (stream : list Z) (verdict : N) (payload : list Z) : bool :=
+  match gunzip stream with
+  | Done d [] => N.eqb verdict 0 && zs_eqb d payload
+  | Done _ (_ :: _) => negb (N.eqb verdict 0)
+  | NeedMore | Bad => negb (N.eqb verdict 0)
+  | OutOfFuel => false
+  end.
 
 Definition c16_check (c : c16case) : bool :=
   match c with
@@ -49,4 +67,9 @@ Definition c16_check (c : c16case) : bool :=
       evss_eqb N.eqb (decompress bool N (list (option N)) calls trace_step (fun _ => eof) (fun _ => flush)
                         (fun b => b) skip empties) obs
       && consumed (snd fin) && (nflush =? (if fst fin && eof then 1 else 0))
+  | CGunzip stream payload cuts mutants =>
+      (match gunzip stream with Done d [] => zs_eqb d payload | _ => false end)
+      && forallb (fun c => match gunzip (firstn c stream) with NeedMore => true | _ => false end) cuts
+      && (match gunzip (gzip_stored payload) with Done d [] => zs_eqb d payload | _ => false end)
+      && forallb (fun m => gunzip_verdict_ok (fst (fst m)) (snd (fst m)) (snd m)) mutants
   end.
